@@ -247,6 +247,10 @@ func permJobs(r *ev.Run) []job {
 						dup := append(append([]proch.Event{}, base...), proch.Event{Kind: "obs", G: S[0], D: 0}, proch.Event{Kind: "msg", M: 0})
 						add(name+"+dup", n, ownKey, dup, []proch.Event{set0}, true)
 					}
+					// the local observation happens during a burst of gossip: the node's inbound observation queue
+					// is full at that moment; its own signature must still reach its aggregation once there is room
+					burst := append([]proch.Event{{Kind: "msg", M: 0, FullO: true}}, base[1:]...)
+					add(name+"+burst", n, ownKey, burst, []proch.Event{set0}, true)
 					// the set goes forward and back again somewhere in the ordering, with a re-observation
 					back := append(append([]proch.Event{}, base...), proch.Event{Kind: "set", Set: 1}, proch.Event{Kind: "set", Set: 0}, proch.Event{Kind: "msg", M: 0}, proch.Event{Kind: "obs", G: n, D: 0})
 					if len(back) <= 7 {
